@@ -85,6 +85,12 @@ func ValidateAttestation(ctx context.Context, subnet uint64, att *phase0.Attesta
 	} else if !inSubtree {
 		return nil, GossipValidatorResult{REJECT, errors.New("block not in subtree of target")}
 	}
+	// Being an ancestor is not enough: the target must be the checkpoint block of its epoch on the chain of the vote.
+	if ckptRoot, ok := checkpointBlockRoot(ch, att.Data.BeaconBlockRoot, blockRef, targetSlot, uint64(spec.SLOTS_PER_EPOCH)); !ok {
+		return nil, GossipValidatorResult{IGNORE, errors.New("cannot find the checkpoint block of the target epoch for the voted block")}
+	} else if ckptRoot != att.Data.Target.Root {
+		return nil, GossipValidatorResult{REJECT, fmt.Errorf("target %s is not the checkpoint block %s of epoch %d", att.Data.Target.Root, ckptRoot, att.Data.Target.Epoch)}
+	}
 
 	// [IGNORE] The current finalized_checkpoint is an ancestor of the block defined
 	// by attestation.data.beacon_block_root --
